@@ -96,7 +96,12 @@ type frame struct {
 	callOrd  map[*ssa.Call]string // "callee#k" by source order
 	allocByPos map[token.Pos]*ssa.Alloc
 	activeRange *rangeState
+	newRefs  []Term
 }
+
+var _ = 0
+
+type heapStoreT = map[string][2]string
 
 type loopState struct {
 	ord      int
@@ -168,6 +173,8 @@ type enc struct {
 	finder  bool
 	unfolded map[string]bool
 	ufDecls []string
+	heapStore heapStoreT
+	mapAlias map[string][]*Loc
 	awbDepth int
 	awbSeen  map[ssa.Value]bool
 	recordCommute bool
@@ -418,6 +425,7 @@ func (e *enc) value(v ssa.Value) Term {
 		t := e.fresh("p_"+x.Name(), e.so.of(x.Type()))
 		fr.val[v] = t
 		e.assumeWF(t, x.Type(), 2)
+		e.assumeAllocated(t, x.Type())
 		if _, isMap := x.Type().Underlying().(*types.Map); isMap {
 			// maps are references: the parameter's current content lives in a cell so that updates are visible
 			key := fmt.Sprintf("P:%s:%d:%s", clean(fr.fn.Name()), fr.depth, x.Name())
@@ -599,7 +607,11 @@ func (e *enc) readIn(mem map[string]Term, l *Loc) Term {
 		t = e.mem[l.base]
 	}
 	if l.ref != "" {
-		t = fmt.Sprintf("(select %s %s)", t, l.ref)
+		if hs, ok := e.heapStore[t]; ok && hs[0] == l.ref {
+			t = hs[1] // reading the object that was just written at this very reference
+		} else {
+			t = fmt.Sprintf("(select %s %s)", t, l.ref)
+		}
 	}
 	for _, s := range l.path {
 		switch s.kind {
@@ -647,9 +659,14 @@ func (e *enc) updated(cur Term, path []step, v Term) Term {
 func (e *enc) write(l *Loc, v Term) {
 	cur := e.mem[l.base]
 	var nv Term
+	var newObj Term
 	if l.ref != "" {
 		inner := fmt.Sprintf("(select %s %s)", cur, l.ref)
-		nv = fmt.Sprintf("(store %s %s %s)", cur, l.ref, e.updated(inner, l.path, v))
+		if hs, ok := e.heapStore[cur]; ok && hs[0] == l.ref {
+			inner = hs[1]
+		}
+		newObj = e.define("obj", l.objSort(e), e.updated(inner, l.path, v))
+		nv = fmt.Sprintf("(store %s %s %s)", cur, l.ref, newObj)
 	} else {
 		nv = e.updated(cur, l.path, v)
 	}
@@ -658,6 +675,19 @@ func (e *enc) write(l *Loc, v Term) {
 	e.decls = append(e.decls, fmt.Sprintf("(declare-const %s %s)", name, e.memSort[l.base]))
 	e.defs = append(e.defs, fmt.Sprintf("(= %s %s)", name, nv))
 	e.mem[l.base] = name
+	if newObj != "" {
+		if e.heapStore == nil {
+			e.heapStore = map[string][2]string{}
+		}
+		e.heapStore[name] = [2]string{l.ref, newObj}
+	}
+}
+
+// objSort: sort of the objects stored in the heap this location lives in
+func (l *Loc) objSort(e *enc) string {
+	s := e.memSort[l.base] // (Array Int S)
+	s = strings.TrimPrefix(s, "(Array Int ")
+	return strings.TrimSuffix(s, ")")
 }
 
 func (e *enc) havocKey(k string) {
